@@ -215,20 +215,30 @@ Check C04_call_result_closed_all : forall o release d fr this f args st r st',
   store_le st st' /\ (forall v, r = Ok v -> closed_value st' v).
 Print Assumptions C04_call_result_closed_all.
 
-(* ---- F9 (open finding, known/C04.json): the hypothesis `lookup fr1 "inputs" = lookup fr2 "inputs"` of the
-   call-site independence theorems is NECESSARY for the code as it is.  FunctionDef::call copies the CALLER's
-   `inputs` binding into the callee's local bindings, where it outranks the captured scope: a function that
-   captured `inputs` at creation reads the `inputs` of its call site whenever a parameter or do-block local of
-   the caller is spelled `inputs` (reproduced on the real binary: `f = x => #a + x` returns 2 at top level and
-   101 from `(inputs => f(1))({a: 100})`).  The statement without that hypothesis is refuted on the faithful
-   model by that witness (proofs/C04Inputs.v); the theorems above exclude exactly this class; repair proposed
-   as fixes/C04-captured-inputs.diff (mirror of 2d884d7: the captured value wins). ---- *)
+(* ---- F9 (known/C04.json; REPAIRED in this model, fixes/C04-captured-inputs.diff): FunctionDef::call copied
+   the CALLER's `inputs` binding into the callee's local bindings, where it outranked the captured scope: a
+   function that captured `inputs` at creation read the `inputs` of its call site whenever a parameter or
+   do-block local of the caller is spelled `inputs` (reproduced on the real binary before the repair:
+   `f = x => #a + x` returns 2 at top level and 101 from `(inputs => f(1))({a: 100})`).  The repaired code
+   copies the caller's `inputs` only when the function did not capture the name (mirror of 2d884d7: the
+   captured value wins); the former refutation witness (proofs/C04Inputs.v) now returns 2 at both call sites.
+   The theorems above keep their hypothesis `lookup fr1 "inputs" = lookup fr2 "inputs"`: they remain true,
+   the hypothesis is merely stronger than the repaired code needs; the statement without it is kept as
+   C04_call_site_independent_any_inputs_full. ---- *)
 Require Import Blots.proofs.C04Inputs.
 Definition C04_call_site_independent_any_inputs_full : Prop := call_site_independent_any_inputs.
-Theorem C04_call_site_independent_any_inputs_refuted : ~ C04_call_site_independent_any_inputs_full.
-Proof. exact call_site_independent_any_inputs_refuted. Qed.
-Check C04_call_site_independent_any_inputs_refuted : ~ C04_call_site_independent_any_inputs_full.
-Print Assumptions C04_call_site_independent_any_inputs_refuted.
+Theorem C04_f9_witness_repaired :
+  fst (AD true binop_impl builtin_impl 5 (f9_chain 1) VNull f9_fun [VNum (num_of_Z 1)] f9_store)
+    = Ok (VNum (num_of_Z 2)) /\
+  fst (AD true binop_impl builtin_impl 5 (f9_chain 100) VNull f9_fun [VNum (num_of_Z 1)] f9_store)
+    = Ok (VNum (num_of_Z 2)).
+Proof. exact f9_results_agree. Qed.
+Check C04_f9_witness_repaired :
+  fst (AD true binop_impl builtin_impl 5 (f9_chain 1) VNull f9_fun [VNum (num_of_Z 1)] f9_store)
+    = Ok (VNum (num_of_Z 2)) /\
+  fst (AD true binop_impl builtin_impl 5 (f9_chain 100) VNull f9_fun [VNum (num_of_Z 1)] f9_store)
+    = Ok (VNum (num_of_Z 2)).
+Print Assumptions C04_f9_witness_repaired.
 Example C04_f9_witness_is_closed :
   closed_value f9_store f9_fun /\ closed_value f9_store VNull /\ closed_list f9_store [VNum (num_of_Z 1)] /\
   (forall k v, lookup (f9_chain k) "inputs" = Some v -> closed_value f9_store v).
